@@ -483,6 +483,17 @@ def stage_b(run, tier, rng):
             continue
         terms.append(f"parser_eqb (choose_parser (content_type_of {src})) {'PJson' if lr['parser'] == 'json' else 'PYaml'}")
         meta.append(("loader", {"source": desc, "impl_parser": lr["parser"], "term": src}))
+    # replay of the tree-level finding (no byte of the output depends on it): validators run twice under a non-Schema parent
+    try:
+        from openapi_python_client import schema as oai
+        w = {"oneOf": [{"type": "string"}], "nullable": True}
+        o = oai.OpenAPI.model_validate(G.doc_with({"C": copy.deepcopy(w), "H": {"type": "object", "properties": {"p": copy.deepcopy(w)}}}))
+        n_top, n_nested = len(o.components.schemas["C"].oneOf), len(o.components.schemas["H"].properties["p"].oneOf)
+        if n_top != n_nested:
+            run.known_finding("nullable_twice_at_top", f"components/schemas/C = {json.dumps(w)} validates to {n_top} oneOf members, the same schema as an attribute to {n_nested} "
+                                                       "(after-validators run twice under a non-Schema parent; tree-level only, generated bytes are equal)")
+    except Exception as e:  # noqa
+        run.violation("harness-error", {"where": "nullable_twice_at_top replay", "error": repr(e)}, no_input=True)
     print("phase B gen %.1fs (%d terms)" % (time.time() - t0, len(terms))); t0 = time.time()
     bad = run_cases(hdr, terms, shard=250)
     print("phase B coq %.1fs" % (time.time() - t0))
